@@ -751,7 +751,13 @@ func judgeFinal(w *world.W, ob *observer, j sJob, topoKind string, ops []*opRec,
 	}
 	// (3') EVERY generation was loaded with exactly what was configured when it read the configuration
 	known := map[string]igSpec{}
-	for _, ig := range append(append([]igSpec{}, ob.topo.base.DBIGs...), ob.topo.newIG, ob.topo.newI2, ob.topo.badIG, ob.topo.dupIG) {
+	// what a row of a given name contains: the topology's rows and whatever THIS scenario stores (newIG and
+	// dupIG share a name; only "dupsave" stores dupIG)
+	stored := []igSpec{ob.topo.newIG, ob.topo.newI2, ob.topo.badIG}
+	if j.Scen == "dupsave" {
+		stored = []igSpec{ob.topo.dupIG}
+	}
+	for _, ig := range append(append([]igSpec{}, ob.topo.base.DBIGs...), stored...) {
 		known[ig.Name] = ig
 	}
 	for gi, g := range ob.gens {
